@@ -26,15 +26,17 @@ def rsingle(x):
 
 
 VALID = {
-    '%': ['0', '5', '-7', '32767', '-32768', '+12', ' 42 ', '007'],
-    '&': ['0', '70000', '-2147483648', '2147483647', ' 9 ', '+3'],
+    '%': ['0', '5', '-7', '32767', '-32768', '+12', ' 42 ', '007', '32767.4', '-32768.4', '-32768.5', '32766.5', '2.5', '3.5', '3.27674E4',
+          '-.5', '1e2'],
+    '&': ['0', '70000', '-2147483648', '2147483647', ' 9 ', '+3', '2147483647.4', '-2147483648.5', '2147483646.5', '0.5', '1.5', '2D9'],
     '!': ['0', '1.5', '-2.25', '1e3', '.5', '5.', '+.5E-2', ' 3.25 ', '3.4E38', '7'],
     '#': ['0', '1.5', '-2.25', '1e300', '.5', '5.', '1D3', '2.5d-2', ' 8 ', '123456789.125'],
     '$': ['abc', 'two words', '', '  padded  ', '12', 'x:y', "it's"],
 }
 NONNUM = ['abc', '1x', 'x1', '1_0', 'inf', 'nan', '-inf', 'Infinity', '0x10', '１２', '1e', '--1', '1..2', '1 2', '$5', '1e+',
           '&H10', '1,0'[:1] + 'O']
-OUTOFRANGE = {'%': ['32768', '-32769', '100000'], '&': ['2147483648', '-2147483649', '99999999999'],
+OUTOFRANGE = {'%': ['32768', '-32769', '100000', '32767.5', '3.27675E4', '-32768.6', '32767.51'],
+              '&': ['2147483648', '-2147483649', '99999999999', '2147483647.5', '2.1474836475D9', '-2147483648.6'],
               '!': ['3.5E38', '1e39', '-1e40'], '#': ['1e309', '-1e400', '1D400']}
 
 
@@ -43,7 +45,8 @@ def value_of(text, ty):
     if ty == '$':
         return s
     if ty in '%&':
-        return int(s)
+        # the language's conversion to an integer type: nearest, halves to the even neighbour
+        return int(round(float(s.replace('D', 'e').replace('d', 'e'))))
     v = float(s.replace('D', 'e').replace('d', 'e'))
     return rsingle(v) if ty == '!' else v
 
